@@ -66,6 +66,29 @@ impl<T: Trace> Cc<T> {
         })
     }
 
+    /// Same as [`Cc::new`], but the value is created (by calling `f`) only after the automatically-started
+    /// collection (if any) has completed. If that collection panics, `f` is never called and no value is dropped.
+    #[cfg(feature = "weak-ptrs")] // Currently used only by Cc::new_cyclic
+    #[inline]
+    #[must_use]
+    #[track_caller]
+    pub(crate) fn __new_with(f: impl FnOnce() -> T) -> Cc<T> {
+        state(|state| {
+            #[cfg(debug_assertions)]
+            if state.is_tracing() {
+                panic!("Cannot create a new Cc while tracing!");
+            }
+
+            #[cfg(feature = "auto-collect")]
+            super::trigger_collection(state);
+
+            Cc {
+                inner: CcBox::new(f(), state),
+                _phantom: PhantomData,
+            }
+        })
+    }
+
     /// Returns the inner value, if the [`Cc`] has exactly one strong reference and the collector is not collecting, finalizing or dropping.
     /// 
     /// Otherwise, an [`Err`] is returned with the same [`Cc`] this method was called on.
